@@ -70,6 +70,7 @@ def encErr : Err → Sx
   | .depthExceeded => .atom "depthexceeded"
   | .zeroColumnRows => .atom "zerocolumnrows"
   | .badTemporal => .atom "badtemporal"
+  | .columnNotFound => .atom "columnnotfound"
   | .panic => .atom "PANIC"
 
 /-- the model's `parse_data_type` verdict on a catalog type text: `none`, a canonical type name,
@@ -97,8 +98,17 @@ def encCatalog (c : Catalog) : List Sx :=
         | some w => .list [sxNat w.nodes, sxNat w.depth]
         | none => .atom "none"])) ]
 
+/-- string components of the keys of every rebuilt index (or the rebuild's error) -/
+def encBuilt (f : FileContent) : Sx :=
+  match rebuildIndexes f with
+  | .error e => .list [.atom "built-err", encErr e]
+  | .ok bs => .list (.atom "built" :: bs.map (fun b =>
+      .list (hx b.name :: b.keys.map (fun k => .list (k.filterMap (fun v => match v with
+        | .varchar s | .character s => some (hx s)
+        | _ => none))))))
+
 def encFile (f : FileContent) : List Sx :=
-  encCatalog f.catalog ++
+  encCatalog f.catalog ++ [encBuilt f] ++
   [ .list (.atom "data" :: f.data.map (fun t =>
       .list (hx t.name :: t.rows.map (fun r => .list (r.map encVal))))) ]
 
@@ -128,7 +138,7 @@ def fFile (f : FileContent) : List (String × Bytes) :=
   ++ fCounted (fun t => fStr t.name ++ fCounted (fun c => fStr c.name ++ [("typelen", leBytes 4 c.typeStr.length), ("type", c.typeStr)] ++ [("flag", wbool c.nullable)]) t.cols) f.catalog.tables
   ++ fCounted (fun i => fStr i.name ++ fStr i.table ++ [("flag", wbool i.unique)]
         ++ fCounted (fun c => fStr c.name ++ [("flag", [dirByte c])]
-            ++ (match c.pfx with | some n => [("body", leBytes 8 n)] | none => [])) i.cols) f.catalog.indexes
+            ++ (match c.pfx with | some n => [("prefix", leBytes 8 n)] | none => [])) i.cols) f.catalog.indexes
   ++ fCounted fTrig f.catalog.triggers
   ++ (f.data.map (fun t => fStr t.name ++ [("count", leBytes 8 t.rows.length)]
         ++ (t.rows.map (fun r => (r.map fVal).flatten)).flatten)).flatten
